@@ -5,6 +5,7 @@ import Drv.GmmState
 import Drv.Hdf5
 import Drv.LinearScoring
 import Drv.Linear
+import Drv.FA
 open Lean Drv
 
 def dispatch (j : Json) : Json :=
@@ -22,6 +23,9 @@ def dispatch (j : Json) : Json :=
   | "linear_scoring" => opLinearScoring j
   | "whiten" => opWhiten j
   | "wccn" => opWccn j
+  | "fa_enroll" => opFaEnroll j
+  | "fa_blocks" => opFaBlocks j
+  | "fa_score" => opFaScore j
   | "kmeans_dist" => opKMeansDist j
   | "kmeans_vw" => opKMeansVW j
   | op => obj [("err", Json.str s!"bad-op {op}")]
